@@ -55,7 +55,7 @@ func init() {
 			}
 		}
 		return r.Finish(ev.Coverage{States: states, Transitions: trans, Traces: traces, Evaluations: evals, Distinct: nontriv,
-			Rule:       "(1) exhaustive single-step enumeration: all validator sets over n keys with powers {1,2,3} as trusted-next set x header set {same, other powers, one replaced, disjoint} x ALL signer subsets x trust level {1/3,1/2,2/3} x {adjacent, skipping}, plus both sides of every clock boundary and single-field mutations; oracle = integer-arithmetic predicate from the statement, store compared with a reference map. (2) explicit-state BFS over update orders (forward, skipping, back-filling over a validator-set change, overlapping and disjoint), clock advances to both sides of expiry, and proof verification with real ICS-23 proofs from a real chain with delay {0,10s}; canonical state = stored heights with delay/expiry buckets, latest, clock bucket",
+			Rule:       "(0) all comparison methods of the height type against the lexicographic (revision, height) order on a grid where the two coordinates disagree; (1) exhaustive single-step enumeration: all validator sets over n keys with powers {1,2,3} as trusted-next set x header set {same, other powers, one replaced, disjoint} x ALL signer subsets x trust level {1/3,1/2,2/3} x {adjacent, skipping}, plus both sides of every clock boundary and single-field mutations; oracle = integer-arithmetic predicate from the statement, store compared with a reference map. (2) explicit-state BFS over update orders (forward, skipping, back-filling over a validator-set change, overlapping and disjoint), clock advances to both sides of expiry, and proof verification with real ICS-23 proofs from a real chain with delay {0,10s}; canonical state = stored heights with delay/expiry buckets, latest, clock bucket",
 			Exhaustive: exhaustive,
 			Bounds:     map[string]interface{}{"validators": map[string]int{"quick": 3, "thorough": 4}[tier], "powers": []int{1, 2, 3}, "history_depth": b1.Depth, "counterparty_headers": 5},
 			Assumptions: []string{"ed25519 and tendermint's commit verification are trusted", "trust levels above 2/3 excluded (adjacent headers are checked against 2/3 only)", "exact-equality instants of the trusting period / clock drift are don't-care", "pruning of the oldest expired consensus state is allowed but not required", "rejection of headers that satisfy the statement is informational (liveness)"}})
